@@ -1013,7 +1013,7 @@ STEP_RUN = {
     ],
     'attrs': {'run_me': ('(s_run sp)', 'val'), 'skip_me': ('(s_skip sp)', 'val'),
               'while_decorator': ('(s_while sp)', 'option wcfg'),
-              'description': ('(@None val)', 'option val')},     # descriptions are not modelled
+              'description': ('(s_desc sp)', 'option val')},
     'always_truthy': ('wcfg',),
     'fields': {}, 'ctors': {},
     'obj_methods': {('wcfg', 'while_loop'): ('prim_while_loop',
